@@ -12,6 +12,13 @@ impl<'gc> Named<'gc> for (S<'gc>, W<'gc>) {}
 impl<'gc> Named<'gc> for Vec<W<'gc>> {}
 impl<'gc> Named<'gc> for (S<'gc>, W<'gc>, Vec<S<'gc>>, Option<W<'gc>>) {}
 impl<'gc> Named<'gc> for W<'gc> {}
+trait Tagged<'gc, T>: 'gc + DynCollect<'gc> { fn tag(&self) -> Option<T> { None } }
+dyn_collect!(<T> dyn Tagged<'gc, T> where T: 'gc);
+impl<'gc, T: 'gc> Tagged<'gc, T> for (S<'gc>, W<'gc>) {}
+impl<'gc, T: 'gc> Tagged<'gc, T> for Vec<S<'gc>> {}
+trait Tagged2<'gc, A, B>: 'gc + DynCollect<'gc> {}
+dyn_collect!(<A, B> dyn Tagged2<'gc, A, B> where A: 'gc, B: 'gc);
+impl<'gc, A: 'gc, B: 'gc> Tagged2<'gc, A, B> for W<'gc> {}
 use std::collections::{BTreeMap, BTreeSet, BinaryHeap, HashMap, HashSet, LinkedList, VecDeque};
 use std::rc::Rc;
 use std::sync::Arc;
@@ -59,10 +66,8 @@ def body(optional, std=True):
     optional = optional or set()
     L = []
     a = L.append
-    a("fn run<'gc>(mc: &Mutation<'gc>) -> Vec<String> {")
+    a("fn run<'gc>(mc: &Mutation<'gc>, s: Vec<S<'gc>>, w: Vec<W<'gc>>) -> Vec<String> {")
     a("    let mut f: Vec<String> = vec![];")
-    a("    let s: Vec<S<'gc>> = (0..24u32).map(|i| Gc::new(mc, i)).collect();")
-    a("    let w: Vec<W<'gc>> = (100..124u32).map(|i| Gc::downgrade(Gc::new(mc, i))).collect();")
     # pointers themselves
     a('    chk!(f, "Gc", s[0], [s[0]], [], true);')
     a('    chk!(f, "GcWeak", w[0], [], [w[0]], true);')
@@ -144,6 +149,10 @@ def body(optional, std=True):
     a('    { let b: Box<dyn DynCollect<\'gc>> = Box::new((1u8, String::new())); chkr!(f, "dyn DynCollect (static contents)", &*b, [], [], false); }')
     a('    { let b: Box<dyn Named<\'gc> + \'gc> = Box::new((s[2], w[3])); chk!(f, "Box<dyn Named> via dyn_collect!", b, [s[2]], [w[3]], true); }')
     a('    { let b: Rc<dyn Named<\'gc> + \'gc> = Rc::new(vec![w[4], w[5]]); chk!(f, "Rc<dyn Named> via dyn_collect!", b, [], [w[4], w[5]], true); }')
+    # the generic arm of dyn_collect!
+    a('    { let b: Box<dyn Tagged<\'gc, u8> + \'gc> = Box::new((s[2], w[3])); chk!(f, "Box<dyn Tagged<u8>> via generic dyn_collect!", b, [s[2]], [w[3]], true); }')
+    a('    { let b: Rc<dyn Tagged<\'gc, String> + \'gc> = Rc::new(vec![s[3], s[4]]); chk!(f, "Rc<dyn Tagged<String>> via generic dyn_collect!", b, [s[3], s[4]], [], true); }')
+    a('    { let b: Box<dyn Tagged2<\'gc, u8, S<\'gc>> + \'gc> = Box::new(w[6]); chk!(f, "Box<dyn Tagged2<u8,Gc>> via generic dyn_collect!", b, [], [w[6]], true); }')
     # a RefLock that is mutably borrowed while it is traced must not be skipped silently (the original panics, which re-queues the object)
     a('    { let g = Gc::new(mc, RefLock::new(s[11])); let guard = g.borrow_mut(mc); let mut rec = Rec { strong: vec![], weak: vec![] };')
     a('      let r = std::panic::catch_unwind(std::panic::AssertUnwindSafe(|| { Collect::trace(&*g, &mut rec); })); drop(guard);')
@@ -177,6 +186,9 @@ def body(optional, std=True):
             a(f'    {{ let mut m = slotmap::SlotMap::<slotmap::DefaultKey, W>::new(); for x in vec![{wp}] as Vec<W> {{ m.insert(x); }} chk!(f, "SlotMap<GcWeak>/{n}", m, [], [{wp}], true); }}')
             a(f'    chk!(f, "SmallVec<[Gc;2]>/{n}", smallvec::SmallVec::<[S; 2]>::from_vec(vec![{sp}] as Vec<S>), [{sp}], [], true);')
             a(f'    chk!(f, "SmallVec<[GcWeak;2]>/{n}", smallvec::SmallVec::<[W; 2]>::from_iter(vec![{wp}] as Vec<W>), [], [{wp}], true);')
+            a(f'    chk!(f, "SmallVec<[Gc;0]>/{n}", smallvec::SmallVec::<[S; 0]>::from_vec(vec![{sp}] as Vec<S>), [{sp}], [], true);')
+            a(f'    chk!(f, "SmallVec<[GcWeak;0]>/{n}", smallvec::SmallVec::<[W; 0]>::from_iter(vec![{wp}] as Vec<W>), [], [{wp}], true);')
+            a(f'    chk!(f, "SmallVec<[Option<Gc>;1]>/{n}", smallvec::SmallVec::<[Option<S>; 1]>::from_iter((vec![{sp}] as Vec<S>).into_iter().map(Some)), [{sp}], [], true);')
         a('    { let mut m = slotmap::SlotMap::<slotmap::DefaultKey, S>::new(); let k0 = m.insert(s[0]); let _k1 = m.insert(s[1]); m.remove(k0); m.insert(s[2]); chk!(f, "SlotMap<Gc>/after_remove", m, [s[1], s[2]], [], true); }')
         a('    chk!(f, "EnumMap<bool,Gc>", enum_map::EnumMap::<bool, S>::from_array([s[0], s[1]]), [s[0], s[1]], [], true);')
         a('    chk!(f, "EnumMap<bool,Option<GcWeak>>", enum_map::EnumMap::<bool, Option<W>>::from_array([Some(w[0]), None]), [], [w[0]], true);')
@@ -189,8 +201,22 @@ def body(optional, std=True):
     a("}")
     a(r'''
 fn main() {
-    let fails = rootless_mutate(|mc| run(mc));
-    for x in &fails { println!("C16 violated: {x}"); }
+    // (1) fresh targets, no collector running
+    let mut fails = rootless_mutate(|mc| run(mc, (0..24u32).map(|i| Gc::new(mc, i)).collect(), (100..124u32).map(|i| Gc::downgrade(Gc::new(mc, i))).collect()));
+    // (2) - (4) the same checks with targets the collector has ALREADY MARKED in the running cycle (an impl must report
+    // a pointer whatever the colour of its target: a user-written Trace is not the collector's marker), mid-sweep, and
+    // after a cycle
+    for situation in 0..3u8 {
+        let mut arena = Arena::<Rootable![(Vec<Gc<'_, u32>>, Vec<Gc<'_, u32>>)]>::new(|mc| ((0..24u32).map(|i| Gc::new(mc, i)).collect(), (100..124u32).map(|i| Gc::new(mc, i)).collect()));
+        match situation {
+            0 => { arena.finish_marking(); }
+            1 => { arena.finish_marking().unwrap().start_sweeping(); }
+            _ => { arena.finish_cycle(); arena.finish_marking(); }
+        }
+        let more = arena.mutate(|mc, root| run(mc, root.0.clone(), root.1.iter().map(|g| Gc::downgrade(*g)).collect()));
+        fails.extend(more.into_iter().map(|x| format!("[targets marked, situation {situation}] {x}")));
+    }
+    for x in fails.iter().take(60) { println!("C16 violated: {x}"); }
     if !fails.is_empty() { std::process::exit(1); }
 }
 ''')
@@ -198,9 +224,12 @@ fn main() {
 
 
 SURVIVAL = r'''#![allow(unused)]
-use gc_arena::{Arena, Collect, Gc, GcWeak, Lock, RefLock, Rootable, Mutation, lock::OnceLock};
+use gc_arena::{Arena, Collect, Gc, GcWeak, Lock, RefLock, Rootable, Mutation, lock::OnceLock, GcSlice, GcSliceWithHeader, GcSliceBuilder, GcSliceWithHeaderBuilder, collect::{DynCollect, dyn_collect}};
 use std::collections::*;
 use std::{rc::Rc, sync::Arc, cell::Cell};
+trait Holds<'gc>: 'gc + DynCollect<'gc> {}
+dyn_collect!(dyn Holds<'gc>);
+impl<'gc> Holds<'gc> for (u8, G<'gc>) {}
 thread_local! { static DROPS: Cell<u32> = const { Cell::new(0) }; }
 #[derive(Collect)]
 #[collect(require_static)]
@@ -212,6 +241,10 @@ type G<'gc> = Gc<'gc, Tok>;
 struct Root<'gc> {
     opt: Option<G<'gc>>, res: Result<u8, G<'gc>>, tup: (u8, u8, G<'gc>), arr: [G<'gc>; 2], bx: Box<G<'gc>>, rc: Rc<G<'gc>>, arc: Arc<G<'gc>>, vec: Vec<G<'gc>>, dq: VecDeque<G<'gc>>,
     ll: LinkedList<G<'gc>>, bm: BTreeMap<u8, G<'gc>>, hm: HashMap<u8, G<'gc>>, lock: Lock<Option<G<'gc>>>, rl: RefLock<Vec<G<'gc>>>, tup16: (u8, u8, u8, u8, u8, u8, u8, u8, u8, u8, u8, u8, u8, u8, u8, G<'gc>),
+    // containers that are themselves Gc allocations: traced only if the ALLOCATION says it needs tracing
+    gvec: Gc<'gc, Vec<G<'gc>>>, gopt: Gc<'gc, Option<G<'gc>>>, garr: Gc<'gc, [G<'gc>; 2]>, gtup: Gc<'gc, (u8, G<'gc>)>, glock: Gc<'gc, Lock<Option<G<'gc>>>>, grl: Gc<'gc, RefLock<Vec<G<'gc>>>>,
+    gslice: GcSlice<'gc, G<'gc>>, gslice1: GcSlice<'gc, G<'gc>>, gswh_elems: GcSliceWithHeader<'gc, u8, G<'gc>>, gswh_unit_header: GcSliceWithHeader<'gc, (), G<'gc>>, gswh_header: GcSliceWithHeader<'gc, G<'gc>, u8>, gswh_header_empty: GcSliceWithHeader<'gc, G<'gc>, u8>,
+    gunsized: Gc<'gc, [G<'gc>]>, gdyn: Gc<'gc, Box<dyn Holds<'gc> + 'gc>>, gbox: Gc<'gc, Box<G<'gc>>>, ggc: Gc<'gc, Gc<'gc, G<'gc>>>,
 }
 fn main() {
     let mut n = 0u32;
@@ -220,7 +253,12 @@ fn main() {
         let mut dq = VecDeque::with_capacity(4); dq.push_back(g()); dq.push_back(g()); dq.push_front(g()); dq.push_front(g());
         Root { opt: Some(g()), res: Err(g()), tup: (0, 0, g()), arr: [g(), g()], bx: Box::new(g()), rc: Rc::new(g()), arc: Arc::new(g()), vec: vec![g(), g(), g()], dq,
                ll: LinkedList::from_iter([g(), g()]), bm: BTreeMap::from_iter([(1, g()), (2, g())]), hm: HashMap::from_iter([(1, g()), (2, g())]), lock: Lock::new(Some(g())), rl: RefLock::new(vec![g(), g()]),
-               tup16: (0, 0, 0, 0, 0, 0, 0, 0, 0, 0, 0, 0, 0, 0, 0, g()) }
+               tup16: (0, 0, 0, 0, 0, 0, 0, 0, 0, 0, 0, 0, 0, 0, 0, g()),
+               gvec: Gc::new(mc, vec![g(), g()]), gopt: Gc::new(mc, Some(g())), garr: Gc::new(mc, [g(), g()]), gtup: Gc::new(mc, (0, g())), glock: Gc::new(mc, Lock::new(Some(g()))), grl: Gc::new(mc, RefLock::new(vec![g()])),
+               gslice: GcSliceBuilder::<G>::new(3).write_slice_with(mc, |_| g()), gslice1: GcSliceBuilder::<G>::new(1).write_slice_with(mc, |_| g()),
+               gswh_elems: GcSliceWithHeaderBuilder::<u8, G>::new(2).write_header(7).write_slice_with(mc, |_| g()), gswh_unit_header: GcSliceWithHeaderBuilder::<(), G>::new(2).write_header(()).write_slice_with(mc, |_| g()),
+               gswh_header: { let h = g(); GcSliceWithHeaderBuilder::<G, u8>::new(2).write_header(h).write_slice_with(mc, |_| 0) }, gswh_header_empty: { let h = g(); GcSliceWithHeaderBuilder::<G, u8>::new(0).write_header(h).write_slice_with(mc, |_| 0) },
+               gunsized: gc_arena::unsize!(Gc::new(mc, [g(), g()]) => [G]), gdyn: Gc::new(mc, Box::new((0u8, g())) as Box<dyn Holds + '_>), gbox: Gc::new(mc, Box::new(g())), ggc: Gc::new(mc, Gc::new(mc, g())) }
     });
     arena.mutate(|mc, _| { Gc::new(mc, Tok(999)); });
     arena.finish_cycle();
